@@ -544,6 +544,42 @@ def push_only(pipeline):
                     'to the body geom) and no lateral component: only pushed out, never pulled in', body, timeout=200, budget=600)
 
 
+def push_only_positional():
+  def body(A):
+    import z3
+    from verif.engine.opaque import cut
+    from verif.contracts import C04
+    from brax.base import Transform
+    from brax.positional import collisions
+    xml = '<mujoco><worldbody><body name="a" pos="0 0 0.09"><freejoint/><geom size="0.1"/></body></worldbody></mujoco>'
+    sys = physsys.load(xml)
+    st, raw = C04.sym_pipeline_state(A, sys, 'positional')
+    c = sym_contact(A, 1, link_idx=(np.array([-1]), np.array([0])))
+    m, P = raw['mass'][0], raw['pos'][0]
+    o = lambda *v: np.array([list(v)], dtype=object)
+    fr = c.frame.copy()
+    fr[0, 0] = [0, 0, 1]                                 # the ground: contact normal +z, pointing from the world geom to the body
+    ident = jp.asarray([[1.0, 0.0, 0.0, 0.0]])
+    x_i = Transform(pos=Sym(o(*P)), rot=ident)           # a body at rest: previous pose = current pose; orientation = identity (sphere)
+    st = st.replace(x_i=x_i)
+    cobj = c.obj.replace(frame=Sym(fr))
+    sysm = C04.with_sym_mass(sys, raw['mass'])
+    scale = A.var('collide_scale')
+    sysm = sysm.replace(collide_scale=Sym(scale))
+    H = {'brax.math:safe_norm': cuts.safe_norm_smt, 'brax.math:normalize': cuts.normalize_smt_full, 'brax.com:inv_inertia': cuts.psd_handler('inv_inertia')}
+    I = Interp(A, cuts=H)
+    with cut('brax.math:safe_norm', 'brax.com:inv_inertia', 'brax.math:normalize'):
+      x_new, dl = sym_call(I, lambda ss_, s, p, cc: _resolve_pos_raw(collisions, ss_, s, p, cc), sysm, st, x_i, cobj)
+    pre = [c.dist[0] < 0, m > 0, scale >= 0, c.friction[0, 0] >= 0]
+    d = [x_new.pos[0][i] - P[i] for i in range(3)]
+    goal = [d[2] >= 0, d[0] == 0, d[1] == 0, dl[0] >= 0]
+    return pre, goal
+  return smt_custom('C06/positional.collisions.resolve_position/push_only', 'brax.positional.collisions:resolve_position',
+                    'a body at rest (previous pose = current pose) penetrating the ground (dist < 0, normal +z) at ANY position, for any inverse inertia that is positive semi-definite: '
+                    'its position correction has a non-negative component along the contact normal and no lateral component, and the normal multiplier is >= 0: pushed out, never pulled in',
+                    body, timeout=200, budget=600)
+
+
 def restitution(pipeline):
   """the one-call content of "a sphere hitting the ground rebounds with the configured elasticity times its impact speed": a world--body contact whose contact point lies on the
   normal through the body's centre of mass (a sphere), pure normal approach, any absolute position in the world"""
@@ -731,7 +767,7 @@ def obligations(tier):
          contact_inert('spring', 1, Q), contact_inert('spring', 2, Q), contact_inert('positional', 1, Q), contact_inert('positional', 2, Th),
          generalized_masks(), imp_aref_range(), generalized_force_inert(),
          unit_rot('spring', False, Q), unit_rot('spring', True, Q), unit_rot('positional', False, Q), unit_rot('positional', True, Q),
-         integrate_unit('spring'), integrate_unit_ring(), push_only('spring'), restitution('positional'), restitution('spring'), bounded(tier)]
+         integrate_unit('spring'), integrate_unit_ring(), push_only('spring'), push_only_positional(), restitution('positional'), restitution('spring'), bounded(tier)]
   # the assumed contract of the contact.get cut ("separated geometry is reported with dist >= 0") rests on contact.get handing the collision routine the
   # true world pose of every geom: that clause is proved here as well (same obligation as C10's)
   from verif.contracts import C10
